@@ -154,12 +154,13 @@ class ZSetTuple:         # tuple(<z3 node set>) in arbitrary order
 class SetVal:
     """Python set/frozenset whose elements are symbolic; elements are pairwise
     distinct on the current path (forks happen in add)."""
-    def __init__(self, items=(), frozen=False):
+    def __init__(self, items=(), frozen=False, zextra=()):
         self.items = list(items)
         self.frozen = frozen
+        self.zextra = list(zextra)      # whole symbolic sets merged in (update with a z3 set)
 
     def copy(self):
-        return SetVal(self.items, self.frozen)
+        return SetVal(self.items, self.frozen, self.zextra)
 
 
 class DictVal:
@@ -980,7 +981,23 @@ class Exec:
                     return cur
                 cur = self.eval(nxt, fr)
                 continue
-            # symbolic truth value: fork (keeps exceptions in the right operand sound)
+            # symbolic truth value
+            if isinstance(nxt, (ast.Constant, ast.Name)) and is_sym_bool(cur):
+                # `b or False`, `a and b` on Booleans with a side-effect-free right operand: no fork
+                nv = self.eval(nxt, fr)
+                if isinstance(nv, bool) or is_sym_bool(nv):
+                    nz = nv if is_sym_bool(nv) else z3.BoolVal(nv)
+                    cur = z3.And(cur, nz) if is_and else z3.Or(cur, nz)
+                    continue
+                if self.decide(t):
+                    if is_and:
+                        cur = nv
+                        continue
+                    return True
+                if is_and:
+                    return False
+                cur = nv
+                continue
             if self.decide(t):
                 if is_and:
                     cur = self.eval(nxt, fr)
